@@ -29,6 +29,9 @@ public:
     static std::string getFormalArgBaseNameForSymbol(
         Logic const & logic, SymRef sr,
         std::string const & formalArgDefaultPrefix); // Return a string that is not equal to the argument
+    // A formal argument of the given sort can be called `name` unless a symbol of another signature has that name
+    // (creating the variable would make the name ambiguous for the rest of the script)
+    static bool isFormalArgNameFree(Logic & logic, std::string const & name, SRef sort);
 
     [[nodiscard]] std::unique_ptr<Model> extend(std::span<std::pair<PTRef, PTRef>> extension) const;
     [[nodiscard]] std::unique_ptr<Model> extend(PTRef var, PTRef val) const;
